@@ -34,7 +34,8 @@ def plan(tier):
 
 def required(tier):
     return ["records_judged", "minus_strand_records", "phased_records", "unphased_none_records",
-            "missing_from_tsv_records", "duplicate_tsv_reads", "stable_path_files", "unstable_path_files", "bgzf_input"]
+            "missing_from_tsv_records", "duplicate_tsv_reads", "stable_path_files", "unstable_path_files", "bgzf_input",
+            "multi_record_reads", "multi_record_reads_interleaved"]
 
 
 def setup(ctx):
@@ -48,6 +49,17 @@ def run_case(ctx, rng, index, casedir):
     n = rng.choice([1, 2, rng.randint(3, 20), rng.randint(20, 60)])
     walks = ggaf.make_walks(g, rng, n, maxlen=6, forced=n >= 6)
     lines = [ggaf.make_record(g, rng, w, f"r{index}_{i}", offsets="any", tags="safe").line for i, w in enumerate(walks)]
+    # several records per read (supplementary alignments), adjacent and interleaved with other reads
+    if len(lines) >= 3:
+        for i in range(1, len(lines)):
+            if rng.random() < 0.3:
+                j = rng.randrange(i)
+                c = lines[i].split("\t")
+                c[0] = lines[j].split("\t")[0]
+                lines[i] = "\t".join(c)
+                sit["multi_record_reads"] += 1
+                if j < i - 1:
+                    sit["multi_record_reads_interleaved"] += 1
     stable = rng.random() < 0.5
     if stable:
         lines = [rgaf.ref_to_stable(g, l) for l in lines]
